@@ -240,6 +240,10 @@ PROPS = {
              "checks": {"quick": 3000, "thorough": 150000}, "shards": {"quick": 6, "thorough": 8}},
             {"name": "c15-decorator", "pkg": DECORATOR, "tests": ["TestVerifC15Decorator"],
              "checks": {"quick": 1500, "thorough": 60000}, "shards": {"quick": 3, "thorough": 4}},
+            {"name": "c15-live-composite", "pkg": COMPOSITE, "tests": ["TestVerifC15LiveComposite"],
+             "checks": {"quick": 32, "thorough": 1200}, "shards": {"quick": 4, "thorough": 8}, "timeout": {"quick": 600, "thorough": 3400}},
+            {"name": "c15-live-decorator", "pkg": DECORATOR, "tests": ["TestVerifC15LiveDecorator"],
+             "checks": {"quick": 24, "thorough": 800}, "shards": {"quick": 3, "thorough": 6}, "timeout": {"quick": 600, "thorough": 3400}},
         ],
     },
     "C16": {
